@@ -28,6 +28,14 @@ class Chooser:
             self.sparse = {int(i): int(k) for i, k in sched['pre']}
         elif self.mode == 'line':
             self.line = {(f, int(l), int(o)): int(k) for f, l, o, k in sched['pre']}
+        elif self.mode == 'stall':
+            # [[step, seconds]] or [[file, line, nth, seconds]]: delay injection, otherwise default scheduling
+            self.stalls = {}
+            for e in sched['at']:
+                if len(e) == 2:
+                    self.stalls[int(e[0])] = float(e[1])
+                else:
+                    self.stalls[(e[0], int(e[1]), int(e[2]))] = float(e[3])
         elif self.mode == 'pct':
             self.prio = list(sched['prio'])
             self.cps = sorted(int(c) for c in sched['cps'])
@@ -36,7 +44,7 @@ class Chooser:
 
     def choose(self, run, cur, info, sim):
         mode = self.mode
-        if mode == 'none':
+        if mode in ('none', 'stall'):
             return None
         if mode == 'sparse':
             k = self.sparse.get(sim.decisions)
@@ -102,6 +110,11 @@ def schedule_strategy(max_decision=600, lines=(), nthreads=4, walk_len=200,
             'pre': st.lists(st.tuples(st.sampled_from(list(lines)), st.integers(0, 3), k)
                             .map(lambda x: [x[0][0], x[0][1], x[1], x[2]]),
                             min_size=1, max_size=3)}))
+    if 'stall' in modes and lines:
+        opts.append(st.fixed_dictionaries({
+            'mode': st.just('stall'),
+            'at': st.lists(st.tuples(st.sampled_from(list(lines)), st.integers(0, 3), st.sampled_from([1 / 64, 1 / 8, 0.75, 3.0]))
+                           .map(lambda x: [x[0][0], x[0][1], x[1], x[2]]), min_size=1, max_size=2)}))
     if 'pct' in modes:
         opts.append(st.fixed_dictionaries({
             'mode': st.just('pct'),
@@ -130,4 +143,6 @@ def schedule_valid(s):
         return bool(s.get('prio')) and isinstance(s.get('cps'), list)
     if m == 'walk':
         return isinstance(s.get('walk'), list)
+    if m == 'stall':
+        return all(isinstance(e, list) and len(e) in (2, 4) and e[-1] > 0 for e in s.get('at', [0]))
     return False
